@@ -14,6 +14,10 @@ def run(c):
   n = 120 if c.tier == 'quick' else 1500
   svccheck.differential(c, 'C02', n, backends, cfgs, weights=WEIGHTS, clients=('w1', 'w2', 'w3'),
                         lengths=(5, 26) if c.tier == 'quick' else (5, 45))
+  # the same histories' shape through the REAL PythiaServicer glue (policy supporter + decision converters)
+  # hosting a scripted policy that delivers n-2..n+3 suggestions and never fails
+  svccheck.differential(c, 'C02', 30 if c.tier == 'quick' else 300, ['local:ram'], {'local:ram': cfgs['ram']}, weights=WEIGHTS,
+                        clients=('w1', 'w2', 'w3'), lengths=(5, 20), fail_rate=0.0, directed=False)
   svc.cleanup()
   return c.finish(
       level='proof',
